@@ -21,7 +21,12 @@ Two sub-workloads, one per run (``scn["spec"]["mode"]``):
            In a share of the runs a second front end is attached to the same session (its own shell
            connection, session id and identities; from the start or only when it sends its first request):
            shell requests are spread over the two front ends, so that a request of one is delivered while
-           a request of the other is being handled (e.g. while its cell sleeps).
+           a request of the other is being handled (e.g. while its cell sleeps); in a share of those the two
+           front ends do not wait for each other either before they send a cell.
+           Cells: assignments / prints / log calls / expressions / raise (Exception subclasses and
+           GeneratorExit) / sleeps / witness writes / a syntax error / an object with its own ``__repr__`` as the
+           value of the cell.  In a share of the runs an unchanged cell is executed again, with the non-execute
+           requests of a console (is_complete / complete about a different, generated text) in between.
            Oracle (from the property text): see ``_oracle_proto``.
 """
 
@@ -53,7 +58,11 @@ RULE = (
     "with <= 3 faults (bit flip / frame replacement / wrong key / truncated connection); in 30% of the proto runs "
     "the shell requests are spread over two front ends (two shell connections to the one session, the second "
     "attached at the start or at its first request), often with a slow cell on one and a non-execute request "
-    "on the other before the cell has finished; distinct = scenario "
+    "on the other before the cell has finished, and in 40% of those runs cells of the two front ends are sent "
+    "without waiting for each other; ~5% of the cells end with an object whose __repr__ is native / native and "
+    "raising / a pyscript method, ~3% end by raising GeneratorExit; in 22% of the proto runs an earlier cell is "
+    "executed again unchanged (usually directly after its original) with 0-2 is_complete/complete/kernel_info "
+    "requests in between whose text is a generated cell, a prefix of one, or from a fixed pool; distinct = scenario "
     "digest; non-trivial = frame: a cut strictly inside a frame and >= 1 delivery; proto: >= 1 valid request "
     "answered and >= 1 fault or fragmented request"
 )
@@ -65,10 +74,15 @@ ASSUMPTIONS = [
     "one shell connection at a time per front end; a front end reconnects only after the kernel closed the "
     "truncated one; at most two front ends, and the second has a shell connection only (iopub/hb/control/stdin "
     "are the first one's: a second iopub subscriber is not generated)",
-    "two front ends: the property does not define an order between cells that two front ends run at the same "
-    "time in the one interpreter context, so the driver sends an execute_request of the other front end only "
-    "after everything sent before has had time to finish (1 s + the sleeps sent so far); all other request "
-    "types overlap freely with a running cell of the other front end. The requester of a request is the peer of "
+    "two front ends: unless spec.fe2.overlap is set the driver sends an execute_request of the other front end "
+    "only after everything sent before has had time to finish (1 s + the sleeps sent so far); all other request "
+    "types overlap freely with a running cell of the other front end. With fe2.overlap cells of the two front "
+    "ends are in flight together; the property does not say in which order a kernel executes them, so every "
+    "order is accepted that keeps the order of each connection and the order of cells whose handling did not "
+    "overlap (idle broadcast of one before the busy broadcast of the other): reply status, execution counter "
+    "(execute_input, execute_result, execute_reply), results, errors, stdout and side effects must be those of "
+    "the cells executed one after the other in ONE of these orders (violations of the closest order are "
+    "reported with sig.concurrent = true). The requester of a request is the peer of "
     "the connection it arrived on: a message on another shell connection is not its reply. For a request "
     "handled while one of the other front end was in progress the busy/idle bracket is judged on the status "
     "broadcasts that carry this request's header as parent (positions alone cannot tell whose they are); the "
@@ -84,6 +98,15 @@ ASSUMPTIONS = [
     "stdout_after_idle / stdout_misparented only)",
     "print()/log.debug need the session logger at DEBUG: the driver sets custom_components.pyscript.jupyter_N "
     "to DEBUG (HA logger configuration)",
+    "the value of a cell whose repr() raises, or whose __repr__ is a pyscript (async) method ('special methods in "
+    "a class created in pyscript will not work', reference.rst), has no defined text: the request must be "
+    "answered exactly once with the busy/idle bracket and counts as an executed cell, but ok (+ any or no "
+    "execute_result) and error (+ one error broadcast, any name) are both accepted",
+    "BaseExceptions raised by cells: GeneratorExit only. KeyboardInterrupt and SystemExit are re-raised by "
+    "asyncio out of the running event loop (they would end the simulation, as they would end Home Assistant) and "
+    "asyncio.CancelledError is the kernel's own shutdown signal: not generated",
+    "execute_input: only its execution_count is judged (the counter announced for a cell is the counter of its "
+    "reply); the echoed code and the presence of the broadcast are not stated by the property",
     "uuid.uuid4 and datetime inside jupyter_kernel are replaced by deterministic shims; msg ids/dates never judged",
     "messages with extra buffer frames, replayed messages, upper-case signatures, unknown msg_types, "
     "store_history/silent and valid execute requests on control are not generated (not covered by the text)",
@@ -104,14 +127,19 @@ REACH_PROBES = [
     "control_request", "name_error_cell", "print_then_fail_pipelined",
     "second_front_end", "front_end_attached_late", "concurrent_front_ends", "reply_while_other_cell_runs",
     "cell_from_other_front_end",
+    "cell_rerun", "rerun_after_is_complete_of_other_text", "is_complete_of_typed_cell",
+    "result_repr_native", "result_repr_native_raises", "result_repr_pyscript", "base_exception_cell",
+    "front_ends_not_waiting", "cell_delivered_during_cell_of_other_front_end", "overlapping_cells",
 ]
 # probes that only fire together with the defect they observe (C19-K2, repaired): not "reach"
-SYMPTOM_PROBES = ["stdout_after_idle", "stdout_misparented"]
+# overlapping_cells: a kernel that serves its front ends one after the other never shows it
+SYMPTOM_PROBES = ["stdout_after_idle", "stdout_misparented", "overlapping_cells"]
 SHRINK_LISTS = [["ops"], ["spec", "msgs"], ["spec", "msgs", "*", "frames"], ["spec", "cuts", "pos"],
                 ["spec", "eof", "pos"], ["ops", "*", "cell"], ["ops", "*", "cuts"], ["ops", "*", "ids"]]
 
 WITNESS = "pyscript.c19_w"
 STATE_VAR = "pyscript.c19_ports"
+ORDER_CAP = 1000  # candidate orders of overlapping cells (two chains of <= 12 cells: <= 924)
 REPLY_BOUND = 2.0  # virtual seconds from "request completely delivered and kernel free" to the reply
 
 LEN_POOL = [0, 0, 1, 1, 2, 5, 17, 127, 128, 254, 255, 255, 256, 256, 257, 300, 1000, 4096]
@@ -235,6 +263,17 @@ def _gen_frame_mode(rng: random.Random, tier: str) -> dict:
 VARS = ["v0", "v1", "v2"]
 WORDS = ["alpha", "beta", "gamma", "delta", "x y", "100%", "a'b", "tab\\t"]
 ERRS = ["ValueError", "KeyError", "RuntimeError", "TypeError"]
+# exceptions a cell can raise that are not subclasses of Exception.  KeyboardInterrupt / SystemExit are re-raised
+# by asyncio out of the event loop (they would end the simulation itself) and CancelledError is the kernel's own
+# shutdown signal: not generated (see ASSUMPTIONS)
+BASE_ERRS = ["GeneratorExit"]
+# an object as the value of a cell; what repr() of it does:
+#   native         __repr__ compiled with @pyscript_compile, returns a text         -> defined: that text
+#   native_raises  __repr__ compiled with @pyscript_compile, raises                 -> open (but must be answered)
+#   pyscript       __repr__ is a pyscript (async) method: "will not work" (docs)    -> open (but must be answered)
+ROBJ_KINDS = ["native", "native_raises", "pyscript", "pyscript"]
+ROBJ_RATE = 0.05  # share of the generated cells whose value is such an object
+BASE_ERR_RATE = 0.03  # share of the generated cells that end by raising a BaseException
 
 
 def _gen_int_expr(rng: random.Random, depth: int = 2) -> list:
@@ -287,6 +326,12 @@ def _gen_cell(rng: random.Random, idx: int, force_witness: bool = False) -> list
             cell.append(["expr", ["none"]])
     if not cell:
         cell.append(["expr", _gen_val_expr(rng)])
+    roll = rng.random()
+    if roll < ROBJ_RATE:
+        # the value of the cell is an instance of a class defined in the cell
+        cell.append(["robj", rng.choice(ROBJ_KINDS), idx])
+    elif roll < ROBJ_RATE + BASE_ERR_RATE:
+        cell.append(["raise", rng.choice(BASE_ERRS), f"stop {idx}"])
     if rng.random() < 0.08:
         # a long literal makes the content frame a long (8-byte length) frame
         cell.insert(0, ["set", "v2", ["len", "q" * rng.choice([200, 300, 700])]])
@@ -326,10 +371,21 @@ def _stmt_src(st: list) -> str:
         return f"task.sleep({st[1]!r})"
     if t == "syntax":
         return "1 +"
+    if t == "robj":
+        kind, n = st[1], st[2]
+        body = f"raise ValueError('repr {n}')" if kind == "native_raises" else f"return {_robj_text(n)!r}"
+        deco = "" if kind == "pyscript" else "    @pyscript_compile\n"
+        return f"class R{n}:\n{deco}    def __repr__(self):\n        {body}\nR{n}()"
     raise HarnessError(f"unknown statement {st!r}")
 
 
+def _robj_text(n) -> str:
+    return f"R<{n}>"
+
+
 def cell_src(cell: list, sep: str = "\n") -> str:
+    if any(st[0] == "robj" for st in cell):
+        sep = "\n"  # a compound statement cannot follow a ";"
     return sep.join(_stmt_src(st) for st in cell)
 
 
@@ -356,9 +412,24 @@ def _model_eval(e: list, env: dict):
     return a + b if t == "+" else a - b if t == "-" else a * b
 
 
+class _Shown:
+    """Model value of an object whose repr() is a given text."""
+
+    def __init__(self, text: str) -> None:
+        self.text = text
+
+    def __repr__(self) -> str:
+        return self.text
+
+
 def model_cell(cell: list, env: dict) -> dict:
-    """Reference semantics of a cell by construction: outputs, result, error, witness writes, sleep."""
-    out = {"streams": [], "result": None, "error": None, "wit": [], "sleep": 0.0}
+    """Reference semantics of a cell by construction: outputs, result, error, witness writes, sleep.
+
+    ``open`` is set when the value of the cell is an object whose repr() is not defined by the documentation
+    (raises, or is a pyscript method): the cell ran (outputs, side effects, counter), the request is answered,
+    but whether the answer is ok (+ some result text) or an error is left open.
+    """
+    out = {"streams": [], "result": None, "error": None, "wit": [], "sleep": 0.0, "open": None}
     if any(st[0] == "syntax" for st in cell):
         out["error"] = ["SyntaxError", None]
         return out
@@ -381,10 +452,14 @@ def model_cell(cell: list, env: dict) -> dict:
                 out["wit"].append(st[1])
             elif t == "sleep":
                 out["sleep"] += st[1]
+            elif t == "robj":
+                last = _Shown(_robj_text(st[2])) if st[1] == "native" else _Shown("?" + st[1])
     except _ModelError as err:
         out["error"] = [err.ename, err.evalue]
         return out
-    if last is not None:
+    if isinstance(last, _Shown) and last.text.startswith("?"):
+        out["open"] = last.text[1:]
+    elif last is not None:
         out["result"] = repr(last)
     return out
 
@@ -395,6 +470,8 @@ REQ_TYPES = ["execute_request"] * 8 + ["complete_request", "is_complete_request"
 SIGNED = ["header", "parent", "metadata", "content"]
 KEYS = ["0123456789abcdef", "a", "c19-secret-key-with-some-length-0000000000000000", "kéy-ü"]
 FE2_SHARE = 0.3  # share of the protocol runs with a second front end
+FE2_OVERLAP_SHARE = 0.4  # share of those in which cells of the two front ends are sent without waiting
+RERUN_SHARE = 0.22  # share of the protocol runs in which an unchanged cell is executed again
 FE_SESSIONS = ["c19-client", "c19-fe-two"]  # same length: the wire layout does not depend on the front end
 
 
@@ -409,13 +486,30 @@ def _gen_ids(rng: random.Random) -> list[str]:
     return ids
 
 
-def _gen_content(rng: random.Random, mtype: str) -> dict:
+IS_COMPLETE_POOL = ["x = 1", "def f():\n    pass", "def f():\n    pass\n", "x = ", "if 1:\n", "for i in range(3):",
+                    "(1 +", "", "'abc"]
+
+
+def _gen_typed_text(rng: random.Random, idx: int) -> str:
+    """What a console front end asks about while the user types the next input: a generated cell, or a
+    prefix of one."""
+    src = cell_src(_gen_cell(rng, idx), rng.choice(["\n", "\n", "; "]))
+    if rng.random() < 0.4:
+        src = src[: rng.randint(0, len(src))]
+    return src
+
+
+def _gen_content(rng: random.Random, mtype: str, idx: int = 0, typed_p: float = 0.3) -> dict:
     if mtype == "complete_request":
+        if rng.random() < typed_p / 2:
+            code = _gen_typed_text(rng, 4000 + idx)
+            return {"code": code, "cursor_pos": len(code)}
         code = rng.choice(["pys", "pyscript.c", "whi", "v", "task.", "x = 1\nlo", "", "state.g"])
         return {"code": code, "cursor_pos": rng.randint(0, len(code))}
     if mtype == "is_complete_request":
-        return {"code": rng.choice(["x = 1", "def f():\n    pass", "def f():\n    pass\n", "x = ", "if 1:\n",
-                                    "for i in range(3):", "(1 +", "", "'abc"])}
+        if rng.random() < typed_p:
+            return {"code": _gen_typed_text(rng, 4000 + idx)}
+        return {"code": rng.choice(IS_COMPLETE_POOL)}
     if mtype == "history_request":
         return {"output": False, "raw": True, "hist_access_type": "tail", "n": 10}
     if mtype == "comm_info_request":
@@ -449,7 +543,7 @@ def _gen_req(rng: random.Random, idx: int, key: str, tampered: bool, channel: st
         op["cell"] = _gen_cell(rng, idx, force_witness=tampered)
         op["sep"] = rng.choice(["\n", "\n", "; "])
     else:
-        op["content"] = _gen_content(rng, mtype)
+        op["content"] = _gen_content(rng, mtype, idx)
     if tampered:
         op["fault"] = _gen_fault(rng, key)
     return op
@@ -567,10 +661,64 @@ def _gen_proto_mode(rng: random.Random, tier: str) -> dict:
     spec = {"mode": "proto", "key": key, "steer": steer, "busy_ports": busy,
             "drain": rng.choice(["none", "none", "none", "yield", "slow"]), "hello": hello,
             "subscribe": rng.random() < 0.7}
-    # overlay, drawn last so that the base scenario of a seed is what it was before the overlay existed
+    # overlays, drawn last (each new one after the older ones): the scenario a seed had before stays what it was
     if rng.random() < FE2_SHARE:
         spec["fe2"] = _add_second_front_end(rng, ops, key)
+    if rng.random() < RERUN_SHARE:
+        _add_rerun(rng, ops, key, bool(spec.get("fe2")))
     return {"cfg": cfg, "spec": spec, "ops": ops}
+
+
+def _is_plain_cell_req(op: dict) -> bool:
+    return (op["kind"] == "req" and op.get("ch") == "shell" and op.get("mt") == "execute_request"
+            and not op.get("fault"))
+
+
+def _add_rerun(rng: random.Random, ops: list, key: str, two_fe: bool) -> None:
+    """An unchanged cell is executed again ("run again" in a notebook, arrow-up + enter in a console).
+
+    The second execute_request carries exactly the source of an earlier one; between the two the front end
+    sends what front ends send between two inputs: nothing, or a few non-execute requests
+    (is_complete_request / complete_request about the text being typed - any text, usually not the one that
+    is executed next - or kernel_info_request).  Usually the re-run follows its original directly (no other
+    cell in between), otherwise it is placed anywhere later.
+    """
+    cands = [i for i, op in enumerate(ops) if _is_plain_cell_req(op)]
+    if not cands:
+        op = _gen_req(rng, 3000, key, False)
+        op.pop("content", None)
+        op.update({"mt": "execute_request", "cell": _gen_cell(rng, 3000), "sep": rng.choice(["\n", "\n", "; "])})
+        if two_fe:
+            op["fe"] = rng.randint(0, 1)
+        _place_cuts(rng, op, key, 0)
+        ops.insert(0, op)  # at the front: tampered requests stay at the tail
+        cands = [0]
+    src = rng.choice(cands)
+    again = copy.deepcopy(ops[src])
+    for k in ("dt", "passes", "motif_tail"):
+        again.pop(k, None)
+    again.update(gen_delay(rng, burst_p=0.3, grid=0.25, max_steps=4))
+    again["rerun"] = True
+    mids = []
+    for _ in range(rng.choice([0, 1, 1, 1, 2])):
+        mid = _gen_req(rng, 3001 + src, key, False)
+        mid.pop("cell", None)
+        mid.pop("sep", None)
+        mid["mt"] = rng.choice(["is_complete_request"] * 3 + ["complete_request", "kernel_info_request"])
+        mid["content"] = _gen_content(rng, mid["mt"], 3001 + src, typed_p=0.6)
+        mid["ids"] = list(again["ids"])
+        if two_fe:
+            mid["fe"] = again.get("fe", 0)
+        mids.append(mid)
+    pos = src + 1
+    if rng.random() < 0.25:
+        pos = rng.randint(pos, len(ops))
+    while pos < len(ops) and ops[pos].get("motif_tail"):
+        pos += 1  # do not separate the print-then-fail pair
+    new = mids + [again]
+    ops[pos:pos] = new
+    for k, op in enumerate(new):
+        _place_cuts(rng, op, key, pos + k)
 
 
 def _add_second_front_end(rng: random.Random, ops: list, key: str) -> dict:
@@ -584,6 +732,7 @@ def _add_second_front_end(rng: random.Random, ops: list, key: str) -> dict:
     and any non-execute request on the other front end before the cell has finished.
     """
     prev = 0
+    slow = None
     for op in ops:
         if op["kind"] not in ("req", "trunc") or op.get("ch") != "shell":
             continue
@@ -616,9 +765,24 @@ def _add_second_front_end(rng: random.Random, ops: list, key: str) -> dict:
         ops[pos:pos] = [first, second]
         _place_cuts(rng, first, key, pos)
         _place_cuts(rng, second, key, pos + 1)
+        slow = (first, second)
     wire = N.client_hello(b"DEALER", b"")
-    return {"cuts": _gen_cuts(rng, wire) if rng.random() < 0.5 else [], "delays": _gen_delays(rng),
-            "lazy": rng.random() < 0.4}
+    fe2 = {"cuts": _gen_cuts(rng, wire) if rng.random() < 0.5 else [], "delays": _gen_delays(rng),
+           "lazy": rng.random() < 0.4}
+    if rng.random() < FE2_OVERLAP_SHARE:
+        # the two front ends do not wait for each other: a cell of one is sent while a cell of the other is
+        # still being handled (two users; a notebook "run all" next to a console)
+        fe2["overlap"] = True
+        if slow is not None and rng.random() < 0.7:
+            first, second = slow
+            second.pop("content", None)
+            second.update({"mt": "execute_request", "cell": _gen_cell(rng, 2500), "sep": rng.choice(["\n", "; "])})
+            if rng.random() < 0.5:
+                # it touches what the slow cell uses after its sleep
+                second["cell"].insert(0, ["set", rng.choice(VARS), _gen_int_expr(rng, 1)])
+                first["cell"].append(["expr", ["v", second["cell"][0][1]]])
+            _place_cuts(rng, second, key, 2500)
+    return fe2
 
 
 def gen(rng: random.Random, tier: str) -> dict:
@@ -1003,6 +1167,19 @@ def _run_frame(scn: dict) -> dict:
     }
 
 
+def _cell_kind(op: dict) -> str:
+    """Feature of a request's cell that names the situation in a signature."""
+    cell = op.get("cell")
+    if not cell:
+        return "none"
+    for st in cell:
+        if st[0] == "robj":
+            return "result_repr_" + st[1]
+        if st[0] == "raise" and st[1] in BASE_ERRS:
+            return "base_exception"
+    return "plain"
+
+
 def _short(val) -> str:
     if isinstance(val, (bytes, bytearray)):
         return f"bytes[{len(val)}]:{bytes(val[:12]).hex()}"
@@ -1017,6 +1194,30 @@ def _exc_name(exc) -> str:
     if isinstance(exc, str):
         return exc
     return type(exc).__name__
+
+
+def _linear_extensions(n: int, before: list[set], cap: int) -> list[list[int]]:
+    """Every order of range(n) in which the items of before[i] precede i (smallest index first), at most cap."""
+    out: list[list[int]] = []
+    order: list[int] = []
+    used = [False] * n
+
+    def rec() -> None:
+        if len(out) >= cap:
+            return
+        if len(order) == n:
+            out.append(list(order))
+            return
+        for i in range(n):
+            if not used[i] and all(used[j] for j in before[i]):
+                used[i] = True
+                order.append(i)
+                rec()
+                order.pop()
+                used[i] = False
+
+    rec()
+    return out
 
 
 def _dedup(violations: list[dict], per_key: int = 3) -> list[dict]:
@@ -1211,10 +1412,13 @@ async def _proto_driver(w: JupyterWorld, scn: dict, rec: dict) -> None:
         chan = op["ch"]
         fe = 1 if (fe2 and chan == "shell" and op.get("fe")) else 0
         if fe2 and chan == "shell" and op["mt"] == "execute_request":
-            # cells of different front ends are not run concurrently (ASSUMPTIONS): before a cell of the
-            # other front end is sent, everything sent so far has had the time to be handled
+            # unless the front ends do not wait for each other (fe2.overlap): before a cell of the other
+            # front end is sent, everything sent so far has had the time to be handled
             if last_exec_fe is not None and last_exec_fe != fe:
-                await w.settle(1.0 + 1.05 * slept)
+                if fe2.get("overlap"):
+                    w.probe("front_ends_not_waiting")
+                else:
+                    await w.settle(1.0 + 1.05 * slept)
                 w.probe("cell_from_other_front_end")
             last_exec_fe = fe
             slept += sum(st[1] for st in (op.get("cell") or []) if st[0] == "sleep")
@@ -1272,6 +1476,8 @@ async def _proto_driver(w: JupyterWorld, scn: dict, rec: dict) -> None:
             w.probe("long_identity")
         if chan == "control":
             w.probe("control_request")
+        if op["mt"] == "is_complete_request" and (op.get("content") or {}).get("code") not in IS_COMPLETE_POOL:
+            w.probe("is_complete_of_typed_cell")
         busy_before = conn.sent
         sent = await conn.send(wire, cuts, delays)
         entry.update({"delivered": True, "stamp": sent["stamp"], "conn": conn.cid, "first_byte": busy_before})
@@ -1315,8 +1521,9 @@ def _oracle_proto(w: JupyterWorld, scn: dict, rec: dict):
       request handled concurrently with one of the other front end: among the status broadcasts with this
       request's header as parent); it arrives within REPLY_BOUND (+ sleeps of the cell + injected stalls) of
       the moment the request was delivered and the previous reply sent;
-    * execute_reply status / execution_count / error name, iopub execute_result / stream / error follow the
-      reference semantics of the executed cells in order (cross-cell order; see ASSUMPTIONS).
+    * execute_reply status / execution_count / error name, iopub execute_input count / execute_result / stream /
+      error follow the reference semantics of the executed cells in order (cross-cell order; see ASSUMPTIONS);
+      for cells of two front ends that were handled at the same time: in one of the possible orders.
     """
     spec = scn["spec"]
     key = spec["key"].encode("utf-8")
@@ -1407,7 +1614,9 @@ def _oracle_proto(w: JupyterWorld, scn: dict, rec: dict):
     for e in reqs:
         for st in e["op"].get("cell") or []:
             if st[0] == "wit":
-                wit_owner[st[1]] = e
+                # a re-run cell writes the value of its original: explained when any of them is valid
+                if st[1] not in wit_owner or (e["ch"] == "shell" and is_valid(e)):
+                    wit_owner[st[1]] = e
     wit_hist = []
     for ev in w.bus_events:
         if ev["type"] == "state_changed" and ev["data"].get("entity_id") == WITNESS:
@@ -1459,6 +1668,11 @@ def _oracle_proto(w: JupyterWorld, scn: dict, rec: dict):
     answered: list[dict] = []
     dead = False
     kill_reported = False
+    # of the valid requests without a reply, the one the kernel started to handle last (its busy broadcast) is
+    # reported as such; the others are marked after=no_reply (whatever happened to that one took them along)
+    lost = [e for e in shell_reqs if is_valid(e) and not replies.get(e["header"]["msg_id"])]
+    lost_started = [(min(s["stamp"][0] for s in own_statuses(e)), e["idx"], e) for e in lost if own_statuses(e)]
+    lost_root = max(lost_started)[2] if lost_started else (lost[0] if lost else None)
     prev_reply_vt = rec.get("t_ready", vt0)
     n_valid = 0
     for e in shell_reqs:
@@ -1476,17 +1690,25 @@ def _oracle_proto(w: JupyterWorld, scn: dict, rec: dict):
                 got[0]["stamp"][0] < s["stamp"][0] < tseq for s in statuses)
             if not done:
                 after = "tamper"  # not completely handled (reply + following status) when the bad message arrived
+        if after == "none" and lost and e is not lost_root:
+            after = "no_reply"  # collateral: another request took the connection or the session with it
         if not got:
-            if after == "none" or not kill_reported:
+            if after != "tamper" or not kill_reported:
                 kill_reported = kill_reported or after == "tamper"
                 what = (f"valid {e['op']['mt']} #{e['idx']} delivered completely at t={rel(e['stamp'])} on shell "
                         f"connection {e['conn']} got no reply by t={round(rec['t_end'] - vt0, 3)}")
+                if e["op"].get("cell"):
+                    what += f"; its cell ({_cell_kind(e['op'])}): {cell_src(e['op']['cell'], ' ; ')[:200]!r}"
+                if after == "no_reply":
+                    what += (f"; request #{lost_root['idx']} ({_cell_kind(lost_root['op'])}) was the last one the "
+                             "kernel started to handle and got no reply either")
                 if after == "tamper":
                     t = tampers[0]
                     what += (f"; a request with a bad signature (#{t['idx']} on {t['ch']}, {t['op']['fault']}) was "
                              f"delivered at t={rel(t['stamp'])}: the kernel shut the whole session down and "
                              "neither reads nor closes this connection")
-                violations.append(_viol("C19.no_reply", {"after": after}, what, rel(e["stamp"])))
+                violations.append(_viol("C19.no_reply", {"after": after, "cell": _cell_kind(e["op"])}, what,
+                                        rel(e["stamp"])))
             dead = True
             continue
         if len(got) > 1:
@@ -1553,60 +1775,48 @@ def _oracle_proto(w: JupyterWorld, scn: dict, rec: dict):
             answered.append(e)
 
     # ---- executed cells in order: counter, status, outputs
-    env: dict = {}
-    count = 1
-    exp_streams, exp_results, exp_errors, exp_wit = [], [], [], []
-    for e in answered:
-        if e["op"]["mt"] != "execute_request":
-            continue
-        e["env_before"] = dict(env)
-        model = model_cell(e["op"]["cell"], env)
-        e["model"] = model
-        rep = e["reply"]
-        t_rep = rel(rep["stamp"])
-        cont = rep["content"]
-        desc = f"execute_reply to #{e['idx']} ({cell_src(e['op']['cell'], ' ; ')[:120]!r})"
-        if cont.get("execution_count") != count:
-            violations.append(_viol("C19.execution_count", {"where": "reply"},
-                                    desc + f": execution_count {cont.get('execution_count')} expected {count}", t_rep))
-        want_status = "error" if model["error"] else "ok"
-        if cont.get("status") != want_status:
-            violations.append(_viol("C19.reply_status", {"want": want_status},
-                                    desc + f": status {cont.get('status')!r} ({cont.get('ename')}: {cont.get('evalue')})",
-                                    t_rep))
-        elif model["error"]:
-            if cont.get("ename") != model["error"][0] or (
-                    model["error"][1] is not None and cont.get("evalue") != model["error"][1]):
-                violations.append(_viol("C19.error_mismatch", {"where": "reply"},
-                                        desc + f": {cont.get('ename')}({cont.get('evalue')!r}) expected {model['error']}",
-                                        t_rep))
-        for text in model["streams"]:
-            exp_streams.append({"text": text, "req": e})
-        if model["result"] is not None:
-            exp_results.append({"repr": model["result"], "count": count, "req": e})
-            w.probe("result_cell")
-        if model["error"]:
-            exp_errors.append({"err": model["error"], "req": e})
-            w.probe("error_cell")
-            if model["error"][0] == "NameError":
-                w.probe("name_error_cell")
-        if model["streams"]:
-            w.probe("stdout_cell")
-        for val in model["wit"]:
-            if not exp_wit or exp_wit[-1] != val:
-                exp_wit.append(val)
-                w.probe("witness_cell")
-        count += 1
-
-    for a, b in zip(answered, answered[1:]):
-        mod = a.get("model")
-        if mod and mod["streams"] and mod["error"] and b["stamp"][0] < a["reply"]["stamp"][0]:
-            w.probe("print_then_fail_pipelined")
-
     def observed(kind: str) -> list[dict]:
         return [m for m in iopub if m["type"] == kind]
 
-    def compare(kind: str, obs: list[dict], exp: list[dict], show_o, show_e, same) -> bool:
+    obs_inputs = observed("execute_input")
+    obs_results_all = observed("execute_result")
+
+    def handling_start(e) -> float:
+        own = [s["stamp"][0] for s in own_statuses(e) if s["content"].get("execution_state") == "busy"]
+        return own[0] if own else e["stamp"][0]
+
+    # The order in which the cells were executed is the order in which they were sent, except for cells of
+    # different front ends whose handling overlapped (the busy broadcast of one lies before the idle broadcast
+    # of the other): for those the property fixes no order, every order is a candidate.
+    execs = [e for e in answered if e["op"]["mt"] == "execute_request"]
+    before: list[set] = [set() for _ in execs]
+    free_pairs = 0
+    if two_fe:
+        begin = [handling_start(e) for e in execs]
+        end = [until[e["idx"]] for e in execs]
+    for j in range(len(execs)):
+        for i in range(j):
+            if not two_fe or execs[i].get("fe", 0) == execs[j].get("fe", 0) or end[i] < begin[j]:
+                before[j].add(i)
+            elif end[j] < begin[i]:
+                before[i].add(j)
+            else:
+                free_pairs += 1
+    if two_fe and any(a.get("fe", 0) != b.get("fe", 0) and a["stamp"][0] < b["stamp"][0] < until[a["idx"]]
+                      for a in execs for b in execs):
+        w.probe("cell_delivered_during_cell_of_other_front_end")
+    orders = []
+    if two_fe:
+        # also without a free pair: a front end that was served later than the other one's later request
+        orders = _linear_extensions(len(execs), before, ORDER_CAP)
+        if len(orders) >= ORDER_CAP:
+            raise HarnessError(f"more than {ORDER_CAP} candidate orders for {len(execs)} cells")
+        if free_pairs:
+            w.probe("overlapping_cells")
+    if not orders:
+        orders = [list(range(len(execs)))]  # one front end; or the observations contradict each other
+
+    def compare(out: list, kind: str, obs: list[dict], exp: list[dict], show_o, show_e, same) -> bool:
         if dead and len(obs) > len(exp):
             # outputs of cells that were pending when a bad-signature message ended the session: not judged
             del obs[len(exp):]
@@ -1617,53 +1827,169 @@ def _oracle_proto(w: JupyterWorld, scn: dict, rec: dict):
                 i += 1
             t = rel(obs[i]["stamp"]) if i < len(obs) else (rel(exp[i]["req"]["reply"]["stamp"]) if i < len(exp) else 0.0)
             why = "missing" if len(obs) < len(exp) and i == len(obs) else "extra" if i == len(exp) else "differs"
-            violations.append(_viol(f"C19.{kind}_mismatch", {"why": why},
-                                    f"iopub {kind} #{i}: observed {[show_o(o) for o in obs][:10]} expected "
-                                    f"{[show_e(x) for x in exp][:10]}", t))
+            out.append(_viol(f"C19.{kind}_mismatch", {"why": why},
+                             f"iopub {kind} #{i}: observed {[show_o(o) for o in obs][:10]} expected "
+                             f"{[show_e(x) for x in exp][:10]}", t))
         return ok
 
-    obs_streams = observed("stream")
-    obs_results = observed("execute_result")
-    obs_errors = observed("error")
-    ok_s = compare("stdout", obs_streams, exp_streams, lambda o: o["content"].get("text"), lambda x: x["text"],
-                   lambda o, x: o["content"].get("text") == x["text"] and o["content"].get("name") == "stdout")
-    ok_r = compare("result", obs_results, exp_results,
-                   lambda o: (o["content"].get("execution_count"), (o["content"].get("data") or {}).get("text/plain")),
-                   lambda x: (x["count"], x["repr"]),
-                   lambda o, x: (o["content"].get("data") or {}).get("text/plain") == x["repr"]
-                   and o["content"].get("execution_count") == x["count"])
-    ok_e = compare("error", obs_errors, exp_errors, lambda o: (o["content"].get("ename"), o["content"].get("evalue")),
-                   lambda x: tuple(x["err"]),
-                   lambda o, x: o["content"].get("ename") == x["err"][0]
-                   and (x["err"][1] is None or o["content"].get("evalue") == x["err"][1]))
-    if ok_s and ok_r and ok_e:
-        t_of = {o["stamp"][0]: rel(o["stamp"]) for o in obs_streams + obs_results + obs_errors}
-        merged = sorted([(o["stamp"][0], x["req"]["idx"], o["type"]) for o, x in
-                         list(zip(obs_streams, exp_streams)) + list(zip(obs_results, exp_results))
-                         + list(zip(obs_errors, exp_errors))])
-        hi = -1
-        for seq, ridx, kind in merged:
-            if ridx < hi:
-                owner = next(e for e in answered if e["idx"] == ridx)
-                path = "error" if model_cell(owner["op"]["cell"], dict(owner["env_before"]))["error"] else "ok"
-                later = next(e for e in answered if e["idx"] == hi)
-                violations.append(_viol("C19.output_order", {"kind": kind, "cell": path},
-                                        f"iopub {kind} of request #{ridx} ({cell_src(owner['op']['cell'], ' ; ')[:80]!r}, "
-                                        f"ends with {path}) was delivered after an output of the later request #{hi} "
-                                        f"({cell_src(later['op']['cell'], ' ; ')[:80]!r})", t_of.get(seq, 0.0)))
-                break
-            hi = max(hi, ridx)
-        for o, x in zip(obs_streams, exp_streams):
-            if x["req"].get("idle") and o["stamp"][0] > x["req"]["idle"]["stamp"][0]:
-                w.probe("stdout_after_idle")
-            if o["parent"].get("msg_id") != x["req"]["header"]["msg_id"]:
-                w.probe("stdout_misparented")
-    # side effects of the valid cells, once each, in order
-    allowed = set(exp_wit)
-    obs_wit = [v for v, _ in wit_hist if v in allowed]
-    if obs_wit != exp_wit:
-        violations.append(_viol("C19.cell_side_effect", {},
-                                f"writes of {WITNESS} by answered cells: observed {obs_wit} expected {exp_wit}", 0.0))
+    def judge(order: list[int]):
+        """Violations, probes and per-cell model data when the cells were executed in this order."""
+        out: list[dict] = []
+        probes: list[str] = []
+        data: dict[int, dict] = {}
+        env: dict = {}
+        count = 1
+        exp_streams, exp_results, exp_errors, exp_wit = [], [], [], []
+        pos_of = {}
+        for pos, k in enumerate(order):
+            e = execs[k]
+            pos_of[e["idx"]] = pos
+            env_before = dict(env)
+            model = model_cell(e["op"]["cell"], env)
+            data[e["idx"]] = {"model": model, "env_before": env_before}
+            rep = e["reply"]
+            mid = e["header"]["msg_id"]
+            t_rep = rel(rep["stamp"])
+            cont = rep["content"]
+            desc = f"execute_reply to #{e['idx']} ({cell_src(e['op']['cell'], ' ; ')[:120]!r})"
+            if cont.get("execution_count") != count:
+                out.append(_viol("C19.execution_count", {"where": "reply"},
+                                 desc + f": execution_count {cont.get('execution_count')} expected {count}", t_rep))
+            for m in obs_inputs:
+                # the counter announced for the cell is the counter of the cell (the echoed code is not judged)
+                if m["parent"].get("msg_id") == mid and m["content"].get("execution_count") != count:
+                    out.append(_viol("C19.execution_count", {"where": "execute_input"},
+                                     f"execute_input of #{e['idx']} ({cell_src(e['op']['cell'], ' ; ')[:120]!r}): "
+                                     f"execution_count {m['content'].get('execution_count')} expected {count} "
+                                     f"(its reply says {cont.get('execution_count')})", rel(m["stamp"])))
+            error = model["error"]
+            if model["open"]:
+                # the value of the cell has no defined repr(): answered (judged above), ok or error
+                probes.append("result_repr_" + model["open"])
+                if cont.get("status") == "error":
+                    error = [None, None]
+                elif cont.get("status") == "ok":
+                    if any(m["parent"].get("msg_id") == mid for m in obs_results_all):
+                        exp_results.append({"repr": None, "count": count, "req": e})
+                else:
+                    out.append(_viol("C19.reply_status", {"want": "ok|error"},
+                                     desc + f": status {cont.get('status')!r}", t_rep))
+            else:
+                want_status = "error" if error else "ok"
+                if cont.get("status") != want_status:
+                    out.append(_viol("C19.reply_status", {"want": want_status},
+                                     desc + f": status {cont.get('status')!r} ({cont.get('ename')}: "
+                                     f"{cont.get('evalue')})", t_rep))
+                elif error:
+                    if cont.get("ename") != error[0] or (error[1] is not None and cont.get("evalue") != error[1]):
+                        out.append(_viol("C19.error_mismatch", {"where": "reply"},
+                                         desc + f": {cont.get('ename')}({cont.get('evalue')!r}) expected {error}",
+                                         t_rep))
+            for text in model["streams"]:
+                exp_streams.append({"text": text, "req": e})
+            if model["result"] is not None:
+                exp_results.append({"repr": model["result"], "count": count, "req": e})
+                probes.append("result_cell")
+                if any(st[0] == "robj" for st in e["op"]["cell"]):
+                    probes.append("result_repr_native")
+            if error:
+                exp_errors.append({"err": error, "req": e})
+                probes.append("error_cell")
+                if error[0] == "NameError":
+                    probes.append("name_error_cell")
+                if error[0] in BASE_ERRS:
+                    probes.append("base_exception_cell")
+            if model["streams"]:
+                probes.append("stdout_cell")
+            for val in model["wit"]:
+                if not exp_wit or exp_wit[-1] != val:
+                    exp_wit.append(val)
+                    probes.append("witness_cell")
+            count += 1
+
+        obs_streams = observed("stream")
+        obs_results = list(obs_results_all)
+        obs_errors = observed("error")
+        ok_s = compare(out, "stdout", obs_streams, exp_streams, lambda o: o["content"].get("text"),
+                       lambda x: x["text"],
+                       lambda o, x: o["content"].get("text") == x["text"] and o["content"].get("name") == "stdout")
+        ok_r = compare(out, "result", obs_results, exp_results,
+                       lambda o: (o["content"].get("execution_count"), (o["content"].get("data") or {}).get("text/plain")),
+                       lambda x: (x["count"], x["repr"] if x["repr"] is not None else "<any>"),
+                       lambda o, x: (x["repr"] is None or (o["content"].get("data") or {}).get("text/plain") == x["repr"])
+                       and o["content"].get("execution_count") == x["count"])
+        ok_e = compare(out, "error", obs_errors, exp_errors,
+                       lambda o: (o["content"].get("ename"), o["content"].get("evalue")),
+                       lambda x: tuple(x["err"]),
+                       lambda o, x: (x["err"][0] is None or o["content"].get("ename") == x["err"][0])
+                       and (x["err"][1] is None or o["content"].get("evalue") == x["err"][1]))
+        if ok_s and ok_r and ok_e:
+            t_of = {o["stamp"][0]: rel(o["stamp"]) for o in obs_streams + obs_results + obs_errors}
+            merged = sorted([(o["stamp"][0], pos_of[x["req"]["idx"]], o["type"]) for o, x in
+                             list(zip(obs_streams, exp_streams)) + list(zip(obs_results, exp_results))
+                             + list(zip(obs_errors, exp_errors))])
+            hi = -1
+            for seq, rpos, kind in merged:
+                if rpos < hi:
+                    owner = execs[order[rpos]]
+                    path = "error" if data[owner["idx"]]["model"]["error"] else "ok"
+                    later = execs[order[hi]]
+                    out.append(_viol("C19.output_order", {"kind": kind, "cell": path},
+                                     f"iopub {kind} of request #{owner['idx']} "
+                                     f"({cell_src(owner['op']['cell'], ' ; ')[:80]!r}, ends with {path}) was "
+                                     f"delivered after an output of the later request #{later['idx']} "
+                                     f"({cell_src(later['op']['cell'], ' ; ')[:80]!r})", t_of.get(seq, 0.0)))
+                    break
+                hi = max(hi, rpos)
+            for o, x in zip(obs_streams, exp_streams):
+                if x["req"].get("idle") and o["stamp"][0] > x["req"]["idle"]["stamp"][0]:
+                    probes.append("stdout_after_idle")
+                if o["parent"].get("msg_id") != x["req"]["header"]["msg_id"]:
+                    probes.append("stdout_misparented")
+        # side effects of the valid cells, once each, in order
+        allowed = set(exp_wit)
+        obs_wit = [v for v, _ in wit_hist if v in allowed]
+        if obs_wit != exp_wit:
+            out.append(_viol("C19.cell_side_effect", {},
+                             f"writes of {WITNESS} by answered cells: observed {obs_wit} expected {exp_wit}", 0.0))
+        return out, probes, data
+
+    best = None
+    for order in orders:
+        got = judge(order)
+        if best is None or len(got[0]) < len(best[0]):
+            best = got + (order,)
+        if not got[0]:
+            break
+    cell_viols, cell_probes, cell_data, best_order = best
+    if len(orders) > 1:
+        # no order of the overlapping cells explains what was observed: reported for the best candidate
+        names = [f"#{execs[k]['idx']}(front end {execs[k].get('fe', 0)})" for k in best_order]
+        for v in cell_viols:
+            v["sig"] = dict(v["sig"], concurrent=True)
+            v["detail"] = (v["detail"] + f" [cells of the two front ends were handled at the same time; none of the "
+                           f"{len(orders)} possible orders explains the observations, closest: {' '.join(names)}]")[:1200]
+    violations.extend(cell_viols)
+    for name in cell_probes:
+        w.probe(name)
+    for e in execs:
+        e["model"] = cell_data[e["idx"]]["model"]
+    for a, b in zip(answered, answered[1:]):
+        mod = a.get("model")
+        if mod and mod["streams"] and mod["error"] and b["stamp"][0] < a["reply"]["stamp"][0]:
+            w.probe("print_then_fail_pipelined")
+    for e in answered:
+        if e["op"].get("rerun"):
+            w.probe("cell_rerun")
+            prev = [o for o in answered if o["stamp"][0] < e["stamp"][0]]
+            k = len(prev)
+            while k and prev[k - 1]["op"]["mt"] != "execute_request":
+                k -= 1
+            between = prev[k:]
+            if (k and prev[k - 1]["op"].get("cell") == e["op"]["cell"]
+                    and any(o["op"]["mt"] == "is_complete_request"
+                            and o["op"]["content"].get("code") != request_content(e["op"])["code"] for o in between)):
+                w.probe("rerun_after_is_complete_of_other_text")
 
     # ---- heartbeat echo (framing under the real handshake)
     hb_sent = [h for h in rec["hb"] if h["delivered"]]
@@ -1675,8 +2001,9 @@ def _oracle_proto(w: JupyterWorld, scn: dict, rec: dict):
                                     f"{_short([b'', hb_sent[i]['body']]) if i < len(hb_sent) else None}", 0.0))
             break
     if len(hb_got) < len(hb_sent) and not tampers:
-        violations.append(_viol("C19.hb_echo", {"why": "missing"},
-                                f"{len(hb_sent)} heartbeat pings, {len(hb_got)} echoes", 0.0))
+        violations.append(_viol("C19.hb_echo", dict({"why": "missing"}, **({"after": "no_reply"} if lost else {})),
+                                f"{len(hb_sent)} heartbeat pings, {len(hb_got)} echoes"
+                                + (f" (request #{lost_root['idx']} got no reply)" if lost else ""), 0.0))
 
     if tampers and any("Shutting down session" in rec_["msg"] for rec_ in w.logs):
         w.probe("session_killed_by_tamper")
@@ -1810,9 +2137,13 @@ def simplify(scn: dict):
         for op in cand["ops"]:
             op.pop("fe", None)
         yield cand
+        if spec["fe2"].get("overlap"):
+            cand = copy.deepcopy(scn)  # the front ends wait for each other
+            cand["spec"]["fe2"].pop("overlap")
+            yield cand
         if spec["fe2"].get("lazy") or spec["fe2"].get("cuts"):
             cand = copy.deepcopy(scn)
-            cand["spec"]["fe2"] = {"cuts": [], "delays": [-1], "lazy": False}
+            cand["spec"]["fe2"] = dict(spec["fe2"], cuts=[], delays=[-1], lazy=False)
             yield cand
         for i, op in enumerate(scn["ops"]):
             if op.get("fe"):
